@@ -9,6 +9,11 @@ Record dc_case := mkDcCase {
   dcc_valid : nat; dcc_invalid : nat; dcc_seed_out : N; dcc_buf : list word;
   dcc_err1 : ores; dcc_err2 : ores; dcc_invs : list (list uev);
 }.
+Record dcf_case := mkDcfCase {
+  dcf_id : nat; dcf_prog : pexp; dcf_checks : nat; dcf_seed : N; dcf_files : list loaded;
+  dcf_valid : nat; dcf_invalid : nat; dcf_seed_out : N; dcf_buf : list word;
+  dcf_err1 : ores; dcf_err2 : ores; dcf_invs : list (list uev); dcf_from : option nat;
+}.
 Inductive acc_obs := AccNo | AccYes | AccAbortObs.
 Record acc_case := mkAccCase {
   acc_id : nat; acc_prog : pexp; acc_seed : N;
@@ -34,6 +39,23 @@ Section CE.
     (if list_eqb (list_eqb uev_eqb) (inv_traces (dc_invocations dc)) (dcc_invs c) then [] else [5]).
   Definition dc_mismatches (cs : list dc_case) : list (nat * list nat) :=
     flat_map (fun c => match diff_dc c with [] => [] | d => [(dcc_id c, d)] end) cs.
+
+  (* doCheck in a directory with fail files: 1 counters, 2 seed, 3 buffer, 4 errors, 5 invocation logs, 6 which file *)
+  Definition diff_dcf (c : dcf_case) : list nat :=
+    let p := compile_p [] (dcf_prog c) in
+    let dc := doCheck G LF0 LVL0 p (dcf_files c) (dcf_checks c) (fun _ => false) (dcf_seed c) [] (fun _ => false) in
+    (if Nat.eqb (dc_valid dc) (dcf_valid c) && Nat.eqb (dc_invalid dc) (dcf_invalid c) then [] else [1]) ++
+    (if N.eqb (dc_seed dc) (dcf_seed_out c) then [] else [2]) ++
+    (if list_eqb N.eqb (dc_buf dc) (dcf_buf c) then [] else [3]) ++
+    (if ores_eqb (ores_r (dc_err1 dc)) (dcf_err1 c) && ores_eqb (ores_r (dc_err2 dc)) (dcf_err2 c) then [] else [4]) ++
+    (if list_eqb (list_eqb uev_eqb) (inv_traces (dc_invocations dc)) (dcf_invs c) then [] else [5]) ++
+    (match dc_fromfile dc, dcf_from c with
+     | None, None => []
+     | Some i, Some j => if Nat.eqb i j then [] else [6]
+     | _, _ => [6]
+     end).
+  Definition dcf_mismatches (cs : list dcf_case) : list (nat * list nat) :=
+    flat_map (fun c => match diff_dcf c with [] => [] | d => [(dcf_id c, d)] end) cs.
 
   Definition acc_obs_of (r : acc_res) : acc_obs :=
     match r with Shrink.AccYes => AccYes | Shrink.AccNo => AccNo | _ => AccAbortObs end.
